@@ -11,6 +11,8 @@ func Lookup(id string) sim.Property {
 		return C07{}
 	case "C06":
 		return C06{}
+	case "C05":
+		return C05{}
 	case "C08":
 		return C08{}
 	}
